@@ -278,7 +278,23 @@ TRANSLATORS = {"scoring": ([("ScoringGen.v", "scoring")], "ScoringGenProof.v"),
                "thrrules": ([("BsearchGen.v", "bsearch"), ("BsearchGenProof.v", None), ("ThrGen.v", "thrrules")], "ThrGenProof.v"),
                "mwcs": ([("MwcsGen.v", "mwcs")], "MwcsGenProof.v"),
                "validators": ([("ValGen.v", "validators")], "ValGenProof.v"),
-               "eatscf": ([("EatScfGen.v", "eatscf")], "EatScfGenProof.v")}
+               "eatscf": ([("EatScfGen.v", "eatscf")], "EatScfGenProof.v"),
+               "eatloop": ([("EatLoopGen.v", "eatloop")], "EatLoopGenProof.v"),
+               "distortion": ([("ScoringGen.v", "scoring"), ("DistGen.v", "distortion")], "DistGenProof.v"),
+               "bvnloop": ([("PosGraphGen.v", "posgraph"), ("PosGraphGenProof.v", None), ("BvnGen.v", "bvnloop")], "BvnGenProof.v"),
+               "consistent": ([("ConsGen.v", "consistent")], "ConsGenProof.v"),
+               "datagen": ([("DataGenGen.v", "datagen")], "DataGenGenProof.v"),
+               "ordinal": ([("OrdGen.v", "ordinal")], "OrdGenProof.v"),
+               "irvscf": ([("IrvScfGen.v", "irvscf")], "IrvScfGenProof.v"),
+               "m2q": ([("M2qGen.v", "m2q")], "M2qGenProof.v"),
+               "irvposet": ([("IrvPosetGen.v", "irvposet")], "IrvPosetGenProof.v"),
+               "reach": ([("ReachGen.v", "reach")], "ReachGenProof.v"),
+               "irvinit": ([("IrvInitGen.v", "irvinit")], "IrvInitGenProof.v"),
+               "irvrot": ([("IrvRotGen.v", "irvrot")], "IrvRotGenProof.v"),
+               "irvall": ([("IrvAllGen.v", "irvall")], "IrvAllGenProof.v"),
+               "irvpipe": ([("IrvScfGen.v", "irvscf"), ("IrvScfGenProof.v", None), ("IrvInitGen.v", "irvinit"), ("IrvInitGenProof.v", None), ("IrvRotGen.v", "irvrot"), ("IrvRotGenProof.v", None),
+                            ("IrvAllGen.v", "irvall"), ("IrvAllGenProof.v", None), ("IrvPosetGen.v", "irvposet"), ("IrvPosetGenProof.v", None), ("MwcsGen.v", "mwcs"), ("MwcsGenProof.v", None),
+                            ("IrvSmallGen.v", "irvsmall"), ("IrvSmallGenProof.v", None)], "IrvPipeGenProof.v")}
 
 def translator_obligation(name):
     """regenerate the model of <name> from /repo's current source (harness/translate.py), compile it, and re-check the
